@@ -16,12 +16,13 @@ GROUPS = {
     "dtype_cast": dict(filter="k_dtype::cast_", bounded=None),
     "dtype_sortcmp": dict(filter="k_dtype::sortcmp_", bounded=None),
     "nulls_bounded": dict(filter="k_agg::bounded_nulls_", bounded="BOUNDED: every logical series of length <= 3 over {null, -2..2} in the NaN and the None encoding, plus one inserted null at every position"),
-    "backend_bounded": dict(filter="k_backend::bounded_", bounded="BOUNDED: 3-4 symbolic i32 elements; Vec, fixed array, VecDeque at head offsets 0..3 of a 4-slot buffer (contiguous and wrapped), Arc<Vec> (accessors and the forwarded drivers); the five Vec fast-path drivers on series of length 1 and 3 and the default slice driver (rolling_custom / rolling_custom_iter) on a VecDeque of length 0, 1, 3, windows 1..=len+2; the index drivers rolling_apply_idx / rolling2_apply_idx (returned path) on a 3-element VecDeque for windows 1..4; Polars not compiled"),
+    "backend_bounded": dict(filter="k_backend::bounded_", bounded="BOUNDED: 3-4 symbolic i32 elements; Vec, fixed array, VecDeque at head offsets 0..3 of a 4-slot buffer (contiguous and wrapped), Arc<Vec> (accessors and the forwarded drivers); the five Vec fast-path drivers on series of length 1 and 3, the three output paths (returned Vec, returned VecDeque, caller buffer) and the default slice driver (rolling_custom / rolling_custom_iter) on a VecDeque of length 0, 1, 3, windows 1..=len+2; the index drivers rolling_apply_idx / rolling2_apply_idx (returned path) on a 3-element VecDeque for windows 1..4; Polars not compiled"),
     "nd_accessors_bounded": dict(filter="k_nd::bounded_accessors_", bounded="BOUNDED: ndarray backend - owned Array1 of 4 symbolic i32 and ArrayView1 `[..;k]`, k in {1, 2, -1, -2}, over a base of 5 symbolic i32: len, get, uget, titer both ways, slice, uslice, try_as_slice against the logical sequence (about 2 min)"),
     "nd_drivers_bounded": dict(filter="k_nd::bounded_drivers_", bounded="BOUNDED: ndarray backend - the overridden rolling_apply, rolling_apply_idx, rolling2_apply, rolling_custom (returned path) on ArrayView1 `[..;k]`, k in {1, -1, -2}, of a 4-element base, windows 1..=len+1: arguments of every call (about 2 min)"),
     "rank_bounded": dict(filter="k_map::rank_bounded", bounded="BOUNDED: vrank on every NaN-encoded series of length 1..=3 over {null, -1, 0, 1}: average rank among the non-null elements (asc / desc, pct), null to nulls"),
     "time_listed_bounded": dict(filter="k_time::time_listed", bounded="BOUNDED: four listed times of day (midnight, one nanosecond, a general value, the last nanosecond of the day): components, calendar time type round trip"),
     "collect_bounded": dict(filter="k_collect::bounded_", bounded="BOUNDED: collectors and buffer writers on iterators of length <= 3 with symbolic items and an error possible at every position (Vec, VecDeque; generic error and TResult); buffer / iterator length pairs from a fixed list; `format!` stubbed on the error path of write"),
+    "nd_out_bounded": dict(filter="k_nd::bounded_out_", bounded="BOUNDED: a caller-supplied ndarray out buffer that is a strided view (every second slot of a 6-slot parent), rolling_apply of a 3-element Vec, windows 1..=3: results in the logical elements, nothing outside the view touched"),
     "unique_bounded": dict(filter="k_cut::bounded_sorted_unique", bounded="BOUNDED: every sorted series of length <= 5 over {0,1,2} with a null block at the head or tail, ascending and descending"),
     "roll_c03_bounded": dict(filter="k_roll::bounded_rolling_c03_", bounded="BOUNDED: ts_vmin / vmax / vargmin / vargmax, ts_vrank (exact average rank, asc / desc, pct) and ts_vminmaxnorm incl. an integer instantiation (Vec, returned path) on every NaN-encoded series of length 4 over {null, -2..2}, windows 1..=5, explicit min_periods 0..=w, against a from-scratch evaluation of each window (about 3 min)"),
     "roll_bounded": dict(filter="k_roll::bounded_rolling_", bounded="BOUNDED: ts_vsum, ts_vmean, ts_vminmaxnorm, ts_vrank (Vec, returned path) on every NaN-encoded series of length 4 over {null, -2..2}, windows 1..=5, explicit min_periods 0..=w, against a from-scratch evaluation of each window (about 3 min)"),
@@ -31,7 +32,7 @@ GROUPS = {
     "gen_range": dict(filter="k_gen::range_", bounded="BOUNDED: a, b, step symbolic i32 within +-2^8; complete over that band, both step directions"),
     "gen_range_wide": dict(filter="k_gen::wide_range_", bounded="BOUNDED: a, b, step symbolic i32 within +-2^12; both step directions"),
     "gen_linspace": dict(filter="k_gen::linspace_", bounded="a, b symbolic i32 within +-2^24, n <= 2^20"),
-    "time_calendar_bounded": dict(filter="k_time::calendar_conversion_", bounded="BOUNDED: millisecond / microsecond date-times within +-4096 units of the epoch (includes negative, non-whole-second instants), read back with chrono's accessors; and calendar values within +-4096 units of year 2300 (outside the i64-nanosecond window) converted to second / millisecond date-times"),
+    "time_calendar_bounded": dict(filter="k_time::calendar_conversion_", bounded="BOUNDED: millisecond / microsecond date-times within +-4096 units of the epoch (includes negative, non-whole-second instants), read back with chrono's accessors; and calendar values within +-4096 units of year 2300 (outside the i64-nanosecond window) converted to second / millisecond date-times, also through the parser's routes From<NaiveDateTime> / From<NaiveDate>"),
     "time_nat": dict(filter="k_time::nat_", bounded=None),
     "time_unit_identity": dict(filter="k_time::unit_identity", bounded=None),
     "time_components": dict(filter="k_time::time_components", bounded=None),
